@@ -155,7 +155,7 @@ def main():
             "guard": "cargo feature `verif` of crate acts",
             "enable": "the harness crate depends on acts with features=[\"verif\"] (cargo build in /verif/harness)",
             "baseline_off_cmd": "sh /verif/tools/run_baseline.sh",
-            "source_commits": ["1285869", "e49c3f8", "18f7425", "98dee9d", "ee35ac3", "f44d26b", "141b43f"],
+            "source_commits": ["1285869", "e49c3f8", "18f7425", "98dee9d", "ee35ac3", "f44d26b", "141b43f", "a5020e8"],
             "add_only": True,
         },
         "engines": [{"name": "lean-proof+correspondence", "path": "tools/check.py",
